@@ -11,9 +11,10 @@ complete-file round-trip contract and the cut-file contract.
 import copy
 import math
 import re
+import sys
 
 from sim import core
-from sim.faults import SimDisk, SimClock, SimCrash, BackendProxy, savetxt_via
+from sim.faults import SimDisk, SimClock, SimCrash, BackendProxy, savetxt_via, install_sim_os
 
 PROP = "C14"
 FORMATS = ("zygo_path", "zygo_file", "ifg", "codev")
@@ -177,8 +178,6 @@ def _setup():
     w.np = np
     w.pio = pio
     w.disk = SimDisk()
-    pio.open = w.disk.open
-    pio.Path = w.disk.path_class()
     mathops.np._srcmodule = BackendProxy(np, savetxt=savetxt_via(w.disk, np))
     return w
 
@@ -483,7 +482,13 @@ def execute(plan):
     cfg = plan["config"]
     config.precision = cfg.get("precision0", 64)
     clock = SimClock(cfg["t0"])
-    w.pio.datetime = clock
+    # seams: every open()/Path/os call on /sim/... in this (forked) process goes to the
+    # SimDisk, time.time() and prysm.io's datetime read the SimClock
+    install_sim_os(w.disk, clock)
+    for modname in ("prysm.io", "prysm.interferogram"):
+        modobj = sys.modules.get(modname)
+        if modobj is not None and hasattr(modobj, "datetime"):
+            modobj.datetime = clock
     w.layouts = {}
     model = {}
     events, violations = [], []
@@ -552,6 +557,7 @@ def execute(plan):
                     w.disk.arm(path, {"kind": fault["kind"], "at": at, "survive": int(fault["survive_u"] * (at + 1))})
                 ev["fault"] = [fault["kind"], at]
             out = "ok"
+            prev_entry, prev_bytes = model.get(path), w.disk.files.get(path)
             try:
                 with warnings.catch_warnings():
                     warnings.simplefilter("ignore")
@@ -562,9 +568,25 @@ def execute(plan):
                 out = "raised:" + type(e).__name__
             w.disk.armed.pop(path, None)
             ev["out"] = out
-            now = w.disk.files.get(path, b"")
-            ev["len"] = len(now)
-            ev["fp"] = core.fp_bytes(now)
+            now = w.disk.files.get(path)
+            ev["len"] = -1 if now is None else len(now)
+            ev["fp"] = core.fp_bytes(now or b"")
+            if out != "ok" and now is None:
+                # the failed write left nothing at the path (e.g. a writer that goes through a
+                # temporary file and renames): later reads have nothing to be judged against
+                bump(probes, "failed_write_left_no_file")
+                model.pop(path, None)
+                events.append(ev)
+                continue
+            if out != "ok" and prev_bytes is not None and now == prev_bytes and not full.startswith(now):
+                # ... or left the previous file untouched (atomic replace): the old model entry stands
+                bump(probes, "failed_write_rolled_back")
+                if prev_entry is None:
+                    model.pop(path, None)
+                events.append(ev)
+                continue
+            if now is None:
+                now = b""
             if out in ("ok", "raised:OSError") and len(now) == len(full) and now != full:
                 # same clock, same map, different bytes: the writer is not a pure function of
                 # (map, clock).  Not a clause of the property; judge against what is on disk.
